@@ -16,14 +16,14 @@ use tyv_model::syntax::{self, esc};
 
 use crate::Real;
 
-pub const SIGMA: [&str; 36] = [
+pub const SIGMA: [&str; 38] = [
     "#", "(", ")", "[", "]", "{", "}", "$", "*", "_", "`", "\"", "/", "\\", "\n", " ", "a", "1", ".", ",", ":", "=", "-", "+", "<", ">", "@", "'", "&",
-    "^", ";", "|", "~", "\r", "é", "\u{2028}",
+    "^", ";", "|", "~", "\r", "é", "\u{2028}", "!", "%",
 ];
 
-pub const TOKENS: [&str; 28] = [
+pub const TOKENS: [&str; 42] = [
     "#let ", "#", "x", "=", "(", ")", ",", ":", "..", "=>", "[", "]", "{", "}", "$", "_", "^", ".", "if ", "else ", "for ", "in ", "import ", "\"s\"",
-    "//c\n", "/*c*/", " ", "\n",
+    "//c\n", "/*c*/", " ", "\n", "<a>", "@r", "https://a.b", "`r`", "```\nr\n```", "- ", "+ ", "/ t: ", "= ", "\\", "*", "#!s\n", "not ", "1.5em",
 ];
 
 const EXTREME_WIDTHS: [usize; 6] = [0, 1, 2, 79, 80, usize::MAX / 2];
@@ -128,8 +128,10 @@ fn families(thorough: bool) -> Vec<Family> {
     let n_str = if thorough { 5 } else { 4 };
     let n_tok = if thorough { 5 } else { 4 };
     let mut v = vec![
-        Family { name: format!("strings<= {n_str} over Sigma36"), size: count(SIGMA.len(), n_str), gen: Box::new(|i| nth(&SIGMA, i)) },
-        Family { name: format!("token strings <= {n_tok} over 28 tokens"), size: count(TOKENS.len(), n_tok), gen: Box::new(|i| nth(&TOKENS, i)) },
+        Family { name: format!("strings <= {n_str} over a 38-character structural alphabet"), size: count(SIGMA.len(), n_str), gen: Box::new(|i| nth(&SIGMA, i)) },
+        // the first 28 tokens are the code-centred core; the other 14 add markup, labels, raw, shebang
+        Family { name: format!("token strings <= {n_tok} over the 28 core tokens"), size: count(28, n_tok), gen: Box::new(|i| nth(&TOKENS[..28], i)) },
+        Family { name: format!("token strings <= {} over all 42 tokens", n_tok - 1), size: count(TOKENS.len(), n_tok - 1), gen: Box::new(|i| nth(&TOKENS, i)) },
     ];
     // single-character damages of the canonical skeleton instances
     let m = Model::new();
@@ -553,7 +555,7 @@ pub fn run(tier: &str, seed: u64) -> i32 {
         transitions: t.1 + ladder_calls.load(Ordering::Relaxed) as u64,
         evaluations: t.0,
         distinct_nontrivial: t.2,
-        rule: "every string of each family (all strings over a 36-character structural alphabet up to the length bound; all token strings over 28 tokens; every single-character damage of every canonical skeleton instance; Unicode blanks/newlines in structural contexts) x widths {0,1,2,79,80,usize::MAX/2} x tab_spaces {0,1,2,64}, in worker processes with an 8 MiB stack: no panic/abort/hang, Ok <=> no syntax errors, format_with_width = input when erroneous and = F(x) otherwise; nesting ladders of 16 recursive families, each step in its own process: success required up to depth 2048, deeper steps up to the parser's own limit reported. Non-trivial = cases that are well-formed Typst (the others exercise the refusal path)".into(),
+        rule: "every string of each family (all strings over a 38-character structural alphabet up to the length bound; all token strings over 28 core tokens (and one shorter over all 42 tokens); every single-character damage of every canonical skeleton instance; Unicode blanks/newlines in structural contexts) x widths {0,1,2,79,80,usize::MAX/2} x tab_spaces {0,1,2,64}, in worker processes with an 8 MiB stack: no panic/abort/hang, Ok <=> no syntax errors, format_with_width = input when erroneous and = F(x) otherwise; nesting ladders of 16 recursive families, each step in its own process: success required up to depth 2048, deeper steps up to the parser's own limit reported. Non-trivial = cases that are well-formed Typst (the others exercise the refusal path)".into(),
         samples,
         exhaustive,
         completed_levels: fams.iter().enumerate().map(|(i, f)| format!("{}: {} of {}", f.name, done_per_family[i].load(Ordering::Relaxed), f.size)).collect(),
